@@ -15,16 +15,39 @@ fn npot(x: u32) -> u32 {
     if x <= 1 { 1 } else if x <= 2 { 2 } else if x <= 4 { 4 } else { 8 }
 }
 
+/// `up` without a width limit (the unit's `up` is over mathematical integers)
+fn up_wide(x: u32, a: u32) -> u64 {
+    let r = x % a;
+    if r == 0 { x as u64 } else { x as u64 + (a - r) as u64 }
+}
+
 #[kani::proof]
 fn c19_next_multiple_of_contract_bounded() {
     let x: u32 = kani::any();
     let shift: u32 = kani::any();
     kani::assume(shift <= 6);
     let rhs: u32 = 1 << shift;
-    // the precondition the Verus unit states (and proves at every call site)
-    kani::assume((x as u64) + (rhs as u64) <= u32::MAX as u64);
+    // the precondition the Verus unit states (and proves at every call site): the rounded value fits
+    kani::assume(up_wide(x, rhs) <= u32::MAX as u64);
     assert!(x.next_multiple_of(rhs) == up(x, rhs));
+    assert!(x.next_multiple_of(rhs) as u64 == up_wide(x, rhs));
     kani::cover!(x % rhs != 0);
+}
+
+// the checked form get_type_layout and check_layout use since the repair: Some(rounded value) exactly when it fits 32 bits
+#[kani::proof]
+fn c19_checked_next_multiple_of_contract_bounded() {
+    let x: u32 = kani::any();
+    let shift: u32 = kani::any();
+    kani::assume(shift <= 6);
+    let rhs: u32 = 1 << shift;
+    let w = up_wide(x, rhs);
+    match x.checked_next_multiple_of(rhs) {
+        Some(r) => assert!(w <= u32::MAX as u64 && r as u64 == w),
+        None => assert!(w > u32::MAX as u64),
+    }
+    kani::cover!(w > u32::MAX as u64);
+    kani::cover!(w <= u32::MAX as u64 && x % rhs != 0);
 }
 
 #[kani::proof]
